@@ -14,6 +14,10 @@ extern const handle_type HANDLE_INVALID;
 // Sets the `FD_CLOEXEC` flag on the file descriptor. POSIX only.
 int handle_cloexec(handle_type handle, bool enable);
 
+// Makes sure `handle` does not occupy one of the standard stream descriptor
+// numbers (0-2) by moving it to a higher number if needed. POSIX only.
+int handle_move_above_std(handle_type *handle);
+
 // Closes `handle` if it is not an invalid handle and returns an invalid handle.
 // Does not overwrite the last system error if an error occurs while closing
 // `handle`.
